@@ -2,7 +2,7 @@
 from hypothesis import strategies as st
 
 from .. import gen
-from ..scenario import Play, play_case
+from ..scenario import Fail, Play, play_case
 from .c10 import values_for
 
 PROPERTY = "C11"
@@ -16,6 +16,7 @@ RULE = (
     "a model holding a valid state -> zero callback records during construction/activation, the stored value untouched (identity for enum "
     "members), the next event leaves from the stored state; re-activation is a no-op. "
     "A reconstruct step may instead use a brand-new model and another start_value (second instance of the same class). "
+    "For coroutine machines the task awaiting the activation may be cancelled while an initial enter callback is suspended; a later activation must not enter the state again. "
     "non-trivial = a reconstruction over a stored non-initial state, or a repeated activation, or a deferred (first-event) activation of a coroutine machine"
 )
 ASSUMPTIONS = ["the return value of activate_initial_state() is not part of the property", "reference interpreter trusted"]
@@ -35,6 +36,40 @@ class P(Play):
             self.labels.add("resume-from-non-initial")
             self.nontrivial = True
         await super().op_reconstruct(step)
+
+    async def op_cancel_activation(self, step):
+        """The task awaiting activate_initial_state() is cancelled while an initial enter callback is suspended.  The state
+        was already entered: a later activation must be a no-op (the initial state is entered exactly once)."""
+        import asyncio
+        from collections import Counter
+
+        ctx = self.main
+        if not ctx.interp.is_async or ctx.interp.state is not None or self.driver != "loop":
+            return
+        task = asyncio.ensure_future(ctx.sm.activate_initial_state())
+        for _ in range(step.get("ticks", 1)):
+            await asyncio.sleep(0)
+        if task.done():
+            obs = ("ok", None) if task.exception() is None else ("exc", task.exception())
+            self.check_round(ctx, obs, lambda: ctx.interp.activate(), f"step {self.i} activate_initial_state()", ignore_result=True)
+            return
+        task.cancel()
+        try:
+            await task
+        except asyncio.CancelledError:
+            pass
+        for _ in range(3):
+            await asyncio.sleep(0)
+        it = ctx.interp
+        if ctx.sm.current_state_value is None:
+            raise Fail("cancelled-activation", f"step {self.i}: activation was cancelled inside an enter callback but no state is set")
+        it.state = it.init_index if it.start is None else it.start
+        it.queue.clear()
+        it.occ = Counter(ctx.H.occ)
+        ctx.H.log.clear()
+        self.check_state(ctx, f"step {self.i} after a cancelled activation")
+        self.labels.add("cancelled-activation")
+        self.nontrivial = True
 
     def on_step(self, i, step, obs, exp, before):
         if self.is_async and not self.explicit_activate and i == self._first_send:
@@ -67,6 +102,14 @@ def cases(draw, tier):
         i = draw(st.integers(0, n - 1))
         cfg["start_value"] = spec["states"][i]["value"] if "value" in spec["states"][i] else spec["states"][i]["id"]
     hist = []
+    if is_async and cfg["driver"] == "loop" and draw(st.booleans()):
+        cfg["activate"] = False
+        start = next((i for i, s_ in enumerate(spec["states"]) if "start_value" in cfg and (s_.get("value", s_["id"]) == cfg["start_value"])), 0)
+        for c in spec["cbs"]:
+            if c["group"] == "enter" and c.get("async") and (c["scope"][0] == "generic" or c["scope"][1] == start):
+                c["yields"] = max(c.get("yields", 0), 2)
+        hist.append({"op": "cancel_activation", "ticks": draw(st.integers(1, 3))})
+        hist.append({"op": "activate"})
     for step in draw(gen.history(spec, max_steps=8 if tier == "quick" else 14)):
         r = draw(st.integers(0, 9))
         if r < 2:
